@@ -29,7 +29,7 @@ def _coord(c):
     c.rely(HELPERS_STABLE, "helper-tasks-are-restarted-only-by-the-coordination-task")
 
 
-@contract(MOD + ":GroupCoordinator._stop_heartbeat_task", ["C19"])
+@contract(MOD + ":GroupCoordinator._stop_heartbeat_task", ["C19", "C06"])
 def _(c):
     _coord(c)
     # called from close() after the coordination task has finished (the other call site, ensure_active_group, runs
@@ -51,6 +51,77 @@ def _(c):
     c.ensures("the-commit-refresh-task-is-finished-and-dropped",
               "self._commit_refresh_task is None and implies(old(self._commit_refresh_task) is not None, old(self._commit_refresh_task).done())")
     c.ensures("other-helper-untouched", "self._heartbeat_task == old(self._heartbeat_task)")
+
+
+# ---- C19: "stop() always terminates": close() resolves self._closing and then awaits the coordination task. Termination
+# is a liveness fact no function contract decides, but its mechanism is a safety discipline that one does: every wait of
+# the coordination task that has no time bound of its own also waits for self._closing (FIRST_COMPLETED).
+G.update({"_error_consumed_fut": Opt(Fut(NONE)), "_pending_exception": Opt(EXC)})
+classmodel("WaitCoroutine", {})
+
+
+@contract(MOD + ":GroupCoordinator._push_error_to_user", ["C19"])
+def _(c):
+    """the coordination task parks here after a fatal coordination error until the application has seen it"""
+    c.self_("GroupCoordinator")
+    c.param("exc", EXC)
+    c.returns(Ref("WaitCoroutine"))
+    c.call("copy.copy", returns="a0", note="copy.copy(exc) is an exception of the same class")
+    c.call("self._subscription.abort_waiters", note="fails the futures of tasks waiting for an assignment; nothing modelled here")
+    c.call("create_future", returns=Fut(NONE), post=["fresh(result)", "not result.done()"], note="a new pending future")
+    c.call("asyncio.wait", returns=Ref("WaitCoroutine"), post=["fresh(result)"], kwargs=["return_when"], nargs=1,
+           note="creates the coroutine of asyncio.wait(futures, return_when=...); the coordination routine awaits it")
+    c.modifies("self._pending_exception", "self._error_consumed_fut")
+    c.hook("before", "asyncio.wait", [
+        ("assert", "the-park-is-left-as-soon-as-close-resolves-closing",
+         "exists(lambda k: 0 <= k < len(a0) and a0[k] == self._closing) and kw_return_when == asyncio.FIRST_COMPLETED"),
+    ])
+    c.ensures("error-kept-for-the-application", "self._pending_exception is not None")
+    c.replay_fn = lambda model, ob=None: {"script": _PARK_SCRIPT}
+
+
+# replay: the real _push_error_to_user; what it returns is awaited by the coordination task. Once close() has resolved
+# self._closing that await must end, whether or not the application ever looks at the error.
+_PARK_SCRIPT = '''
+import asyncio, logging
+logging.disable(logging.CRITICAL)
+from aiokafka.consumer.group_coordinator import GroupCoordinator
+from aiokafka.consumer.subscription_state import SubscriptionState
+from aiokafka import errors as Errors
+
+async def main():
+    bad = []
+    for consumed_first in (False, True):
+        class C: pass
+        coord = C()
+        coord._subscription = SubscriptionState()
+        coord._subscription.register_fetch_waiters(set())          # what Fetcher.__init__ does
+        coord._closing = asyncio.get_running_loop().create_future()
+        coord._pending_exception = None
+        coord._error_consumed_fut = None
+        park = GroupCoordinator._push_error_to_user(coord, Errors.GroupAuthorizationFailedError("g"))
+        task = asyncio.ensure_future(park)
+        await asyncio.sleep(0.01)
+        if task.done():
+            bad.append("the coordination task does not pause for an unread fatal error")
+        if consumed_first:
+            coord._error_consumed_fut.set_result(None)
+        else:
+            coord._closing.set_result(None)           # what close() does first
+        await asyncio.sleep(0.05)
+        if not task.done():
+            bad.append("after close() resolved _closing the coordination task is still parked on the unread error: "
+                       "close() awaits that task, so stop() never returns" if not consumed_first
+                       else "the park did not end when the application consumed the error")
+            task.cancel()
+        try:
+            await task
+        except BaseException:
+            pass
+    return bad
+bad = asyncio.run(main())
+VIOLATED = bool(bad); DETAIL = repr(bad)
+'''
 
 
 classmodel("LeaveGroupRequestObj", {})
